@@ -116,7 +116,7 @@ def switches_of(ss: list, out: list) -> None:
             switches_of(st[4], out)
 
 
-def injected_invalid(r: random.Random) -> tuple[str, str] | None:
+def injected_invalid(r: random.Random) -> tuple[str, str, list] | None:
     """a random valid program with one statically meaningless construct put at a random place where it is meaningless"""
     import copy
     p = copy.deepcopy(Gen(r, Cfg(max_depth=3, max_block=3, max_routines=2, terminator_prob=0.5)).program())
@@ -142,7 +142,7 @@ def injected_invalid(r: random.Random) -> tuple[str, str] | None:
             if not sw[2]:
                 return None
             sw[2][-1][-1] = []
-        return cls, print_prog(p)
+        return cls, print_prog(p), p
     if cls == "break-outside-case":
         cand = [x for x in pts if not x[1]]
         st = [A("ctrl"), A("break")]
@@ -160,7 +160,7 @@ def injected_invalid(r: random.Random) -> tuple[str, str] | None:
         return None
     ss = r.choice(cand)[0]
     ss.insert(r.randint(0, len(ss)), st)
-    return cls, print_prog(p)
+    return cls, print_prog(p), p
 
 
 def import_cycles(r: random.Random, n: int) -> list[dict]:
@@ -265,10 +265,12 @@ def main() -> None:
     for _ in range(3 if q else 20):
         inv += static_invalid_texts(r)
     n_inj = 0
+    inj_asts: list = []
     for i in range(400 if q else 6000):
         x = injected_invalid(random.Random(f"C10-inject-{run.seed}-{i}"))
         if x is not None:
             inv.append(("injected:" + x[0], x[1]))
+            inj_asts.append((x[0], x[1], x[2]))
             n_inj += 1
     run.count("injected invalid programs", n_inj)
     res = run_impl([("compile", s) for _, s in inv])
@@ -279,6 +281,19 @@ def main() -> None:
         elif o["err"] not in DOCUMENTED:
             run.fail("undocumented:" + cls + ":" + o["err"], f"statically meaningless program ({cls}) raises {o['err']}", {"source": s, "observed": o})
         run.count("static:" + ("rejected" if not o["ok"] else "ACCEPTED"))
+    # the specification's own static checks (Lang/SrcSem.v cfg_of_prog returns Err) must reject what was injected:
+    # the model of "statically meaningless" and the compiler agree
+    from core import run_driver, src_side
+    spec = run_driver([[A("cfg"), src_side(a)] for _, _, a in inj_asts])
+    kfirst = None
+    for (cls, txt, _), sp in zip(inj_asts, spec):
+        agrees = sp.get("r") == "err"
+        run.count("K-static (spec rejects injected construct):" + ("ok" if agrees else "DIFF"))
+        if not agrees and kfirst is None:
+            kfirst = (cls, txt, sp)
+    if kfirst is not None:
+        run.correspondence_broken("K-static (Lang/SrcSem.v static checks)", f"the specification model accepts an injected {kfirst[0]}",
+                                  {"source": kfirst[1], "model": kfirst[2]})
     imps = import_invalid() + import_cycles(r, 12 if q else 120)
     ires = run_impl([("files:compile_files", i["files"], "m/main.exps", i["lps"]) for i in imps])
     for i, o in zip(imps, ires):
@@ -290,11 +305,13 @@ def main() -> None:
     # 2. every input: only documented exception classes, no hang
     texts: list[tuple[str, str]] = [("degenerate", d) for d in degenerate()]
     valid = []
+    valid_asts: list = []
     for i in range(300 if q else 4000):
         rr = random.Random(f"C10-{run.seed}-{i}")
         g = (MacroGen if rr.random() < 0.4 else Gen)(rr, Cfg(max_depth=2, max_block=3, max_routines=3, terminator_prob=0.5))
         p = g.macro_program(1)["flat"] if isinstance(g, MacroGen) else g.program()
         valid.append(print_prog(p))
+        valid_asts.append(None if isinstance(g, MacroGen) else p)
     texts += [("valid", v) for v in valid]
     for v in valid:
         for _ in range(2 if q else 6):
@@ -310,6 +327,16 @@ def main() -> None:
         if not o["ok"] and o["err"] not in DOCUMENTED:
             where = ""
             run.fail(f"escape:{o['err']}@{o.get('where')}", f"compile() raises {o['err']} ({o['msg'][:80]}) on a {kind} input", {"source": s, "observed": o})
+    # generated programs without macros: what the compiler accepts, the specification model accepts too
+    vres = {s: o for (kind, s), o in zip(texts, res2) if kind == "valid"}
+    withast = [(t, a) for t, a in zip(valid, valid_asts) if a is not None]
+    vspec = run_driver([[A("cfg"), src_side(a)] for _, a in withast])
+    for (t, a), sp in zip(withast, vspec):
+        acc = vres[t]["ok"]
+        run.count(f"K-static valid programs: compiler {'accepts' if acc else 'rejects'}, spec {sp.get('r')}")
+        if acc and sp.get("r") == "err":
+            run.fail("accepted-but-meaningless-for-the-spec", f"the compiler accepts a program the specification model rejects: {sp.get('msg')}",
+                     {"source": t, "model": sp})
     run.sample({"kind": inv[0][0], "source": inv[0][1]})
     run.assume("the ANTLR front end is not modelled: 'for every input text' is explored, not proved")
     run.finish(rule="one statically meaningless construct of every class named by the property inside valid code; invalid import "
